@@ -12,11 +12,19 @@ IMPL = 'impl<T, N: ArrayLength> GenericArray<T, N>'
 
 
 def generate(g, ex):
-    from verus_engine import Fn
     g.raw('use vstd::prelude::*;\nverus! {\n')
     g.prelude('common.rs')
     g.prelude('heap.rs')
     g.raw('\n// ===== extracted: src/impl_alloc.rs =====\n')
+    emit(g, ex)
+    g.raw('proof fn canary() { assert(false); } /*OB:canary:*/')
+    g.raw('} // verus!\nfn main() {}\n')
+
+
+def emit(g, ex, only=None, extra=()):
+    """`only`: restrict to these functions (used by unit macros, which re-checks the two conversions box_arr! goes through);
+    `extra`: further property tags for every clause"""
+    from verus_engine import Fn
     text = g.src(FILE)
     m = re.search(r'impl<T, N: ArrayLength> GenericArray<T, N>\s*\{', text)
     if not m:
@@ -25,13 +33,16 @@ def generate(g, ex):
     block = text[i + 1:ex.match_brace(text, i)]
 
     def one(name, vsig, requires, ensures, rules):
+        if only is not None and name not in only:
+            return
+        ensures = [(l, pp + list(extra), t) for l, pp, t in ensures]
         f = ex.find_fn(block, name, i + 1, text)
         stats = {}
         body = ex.normalize(f['body'])
         n = ex.statements(body)
         body = ex.apply_rules(body, [('R-misc', r'\bunsafe \{', '{'), ('R-len', r'\bN::USIZE\b', 'N::usize_()')] + rules, stats)
         ex.check_supported(name, body)
-        g.emit_fn(Fn(name, FILE, f['line'], f['sig'], vsig, body, requires, ensures, stats, n, PROPS))
+        g.emit_fn(Fn(name, FILE, f['line'], f['sig'], vsig, body, requires, ensures, stats, n, PROPS + list(extra)))
 
     one('into_boxed_slice', 'pub fn into_boxed_slice<N: ArrayLength>(this: BoxArr) -> (r: BoxSlice)', ['this.block.elems == N::n()'],
         [('same-block', ['C15'], 'r.block == this.block'), ('n-elements', ['C15'], 'r.len == N::n()'), ('frees-with-its-layout', ['C16'], 'r.wf()')],
@@ -47,10 +58,9 @@ def generate(g, ex):
          ('R-box', r'Box::from_raw\(Box::into_raw\(slice\) as \*mut _\)', 'box_arr_from_raw::<N>(box_slice_into_raw(slice))')])
     one('try_from_vec', 'pub fn try_from_vec<N: ArrayLength>(vec: VecT) -> (r: Result<BoxArr, LengthError>)', ['vec.wf()'],
         [('ok-iff-length-N', ['C15'], 'r is Ok <==> vec.len == N::n()'), ('same-block-when-len-eq-cap', ['C15'], 'r is Ok && vec.len == vec.cap ==> r->Ok_0.block == vec.block'),
+         ('same-elements', ['C15'], 'r is Ok ==> r->Ok_0.block.content == vec.block.content'),
          ('frees-with-its-layout', ['C16'], 'r is Ok ==> r->Ok_0.block.elems == N::n()')],
         [('R-call', r'Self::try_from_boxed_slice\(vec\.into_boxed_slice\(\)\)', 'try_from_boxed_slice::<N>(vec.into_boxed_slice())')])
-    g.raw('proof fn canary() { assert(false); } /*OB:canary:*/')
-    g.raw('} // verus!\nfn main() {}\n')
 
 
 def props_for(fname, what):
